@@ -2,7 +2,7 @@
 from xsvlib.facts import fmt, strip, place_path, walk
 from xsvlib import q
 from . import common as C
-from .store_shared import read_bodies
+from .store_shared import read_bodies, denotes_field, is_oneshot_await, capture_type_contains, follow_flag_edges
 from . import C09 as c09
 
 EXPLANATION = ("Ordering analysis of Store::read and Store::append: the broadcast subscription is taken in the read body itself and cannot "
@@ -78,7 +78,8 @@ def is_recv_frame(e):
 
 
 def is_done_value(e):
-    return any(x[0] == "env" for x in walk(e)) and any(x[0] == "field" and "done" in str(x[2]) for x in walk(e))
+    """The (last scanned id, count) pair handed over by the history thread: the awaited value of the oneshot receiver."""
+    return is_oneshot_await(e)
 
 
 def r2(run):
@@ -114,7 +115,8 @@ def r2(run):
         # every delivery is dominated by the deliver edge or the 'no last id' edge
         none_edges = []
         for b2, s2 in live.switches():
-            if s2["kind"] == "variant" and is_done_value(s2["cond"]) and not is_recv_frame(s2["cond"]):
+            if s2["kind"] == "variant" and is_done_value(s2["cond"]) and not is_recv_frame(s2["cond"]) and not (
+                    s2["cond"][0] == "call" and s2["cond"][1].fn.endswith("Future::poll")) and "option::Option" in (s2.get("adt") or ""):
                 for (t, lab, m) in s2["edges"]:
                     ms = m if isinstance(m, tuple) else (m,)
                     if ms == ("None",):
@@ -166,14 +168,12 @@ def r4(run):
         run.ob("%s|history|threshold-after-scan" % C.READ, bool(nxt) and not any(q.reaches(h, t.bb, n.bb) for n in nxt), t.sp,
                "the threshold is sent after the scan loop has finished", reason="threshold-inside-scan")
         # dominated by follow && limit.is_none()
-        follow_edges, nolimit_edges = [], []
+        follow_edges, nolimit_edges = follow_flag_edges(run, h), []
         for bb, si in h.switches():
             if si["kind"] != "bool":
                 continue
             c = si["cond"]
-            if q.place_path(strip(c)) and "follow" in q.place_path(strip(c))[-1]:
-                follow_edges += q.edge_triples(h, bb, lambda m: m is True)
-            if c[0] == "call" and c[1].fn == "core::option::Option::<T>::is_none" and any(x[0] == "field" and "limit" in str(x[2]) for x in walk(c)):
+            if c[0] == "call" and c[1].fn == "core::option::Option::<T>::is_none" and denotes_field(run, h, c, "limit"):
                 nolimit_edges += q.edge_triples(h, bb, lambda m: m is True)
         run.ob("%s|history|threshold-guard" % C.READ, bool(follow_edges) and bool(nolimit_edges) and q.dominated(h, t.bb, via_edges=follow_edges)
                and q.dominated(h, t.bb, via_edges=nolimit_edges), t.sp, "the threshold is sent only when following without a limit", reason="threshold-guard")
@@ -205,7 +205,7 @@ def r5(run):
             for (t, lab, m) in si["edges"]:
                 if m == "Ready":
                     via.append((bb, t, lab))
-        elif q.place_path(strip(c)) and "done" in q.place_path(strip(c))[-1] and not is_recv_frame(c):
+        elif capture_type_contains(live, c, "tokio::sync::oneshot::Receiver") and "option::Option" in (si.get("adt") or ""):
             for (t, lab, m) in si["edges"]:
                 ms = m if isinstance(m, tuple) else (m,)
                 if ms == ("None",):
